@@ -84,15 +84,20 @@ func scenario(role string, seed int) string {
 	}()
 	go func() {
 		defer wg.Done()
-		for i := 0; i < 20; i++ {
+		// registrations go on for the whole scenario: some of them meet the events the logon, the
+		// logout, the probe and the stop fire
+		evs := []utils.Event{utils.EventLogout, utils.EventLogon, utils.EventDisconnect, utils.EventRequest}
+		for i := 0; ; i++ {
 			select {
 			case <-stop:
 				return
 			default:
 			}
-			l.Sess.OnChangeState(utils.EventLogout, func() bool { return true })
-			l.H.HandleIncoming("Y", func([]byte) bool { return true })
-			time.Sleep(50 * time.Millisecond)
+			l.Sess.OnChangeState(evs[i%len(evs)], func() bool { return true })
+			if i%3 == 0 {
+				l.H.HandleIncoming("Y", func([]byte) bool { return true })
+			}
+			time.Sleep(25 * time.Millisecond)
 		}
 	}()
 	// the peer's script
